@@ -7,8 +7,11 @@ Require Import Base Conc.
 Require Import gen.ConcFacts proofs.ConcProofs.
 Open Scope nat_scope.
 
+(* (release_synchronizes: the decrement that may free is SeqCst / AcqRel, or Release followed by an
+   Acquire fence before the free - the condition under which the sequentially consistent
+   interleavings of the model are the executions of the code on weakly ordered hardware too) *)
 Theorem C20_facts : retain_is_rmw = true /\ release_is_rmw = true /\ release_frees_on = 1 /\
-                    arm_locks_before_call = true /\ arm_holds_lock_during_call = true.
+                    arm_locks_before_call = true /\ arm_holds_lock_during_call = true /\ release_synchronizes = true.
 Proof. exact facts. Qed.
 Print Assumptions C20_facts.
 
